@@ -458,7 +458,9 @@ fn apply_mutation(
             offs.iter().for_each(|&o| model[o] = 0);
         }
         Access::Insert { row, col, count } => {
-            let (row, col) = if h == 0 || w == 0 { (0, 0) } else { (row % h, col % w) };
+            // the position may lie up to two rows past the end of the window: then nothing (or
+            // only the part that still fits) is written
+            let (row, col) = if h == 0 || w == 0 { (0, 0) } else { (row % (h + 2), col % w) };
             let start = row * w + col;
             let items: Vec<Id> = (0..*count).map(newval).collect();
             let mut s = surf;
@@ -490,9 +492,8 @@ fn check_nth(surf: &DynS<'_>, win: &Window, base: &[Id], jumps: &[usize], case: 
             want,
             case
         );
-        if want.is_none() {
-            break;
-        }
+        // Iterator::nth consumes the skipped elements even when it overshoots: once it has
+        // returned None the iterator is exhausted and the following calls must stay None
     }
     Ok(())
 }
@@ -717,7 +718,7 @@ impl Property for C07 {
     fn assumptions(&self) -> Vec<String> {
         vec![
             "selector resolution follows C08's reference (checked separately by C08)".into(),
-            "`set` and `insert` are exercised at positions inside the window only (outside is documented as a debug assertion / unspecified)".into(),
+            "`set` is exercised at positions inside the window only (outside is a debug assertion); `insert` starts at a column inside the window and a row up to two rows past its end (linear row-major position; items past the end are dropped); an overshooting `Iterator::nth` exhausts the iterator as the std contract says".into(),
             "the non-aliasing clause is decided as pairwise-distinct addresses equal to the model's cell addresses, not as an aliasing-model (Stacked Borrows) verdict".into(),
         ]
     }
